@@ -77,6 +77,30 @@ def sweeps(tier):
     strings = [b'', b'\x00', b'\x01\x03\x00\x00\x00\x0a', bytes(range(40)), b'\xff' * 17]
     cases = [{'t': 'sum-all', 'data': s.hex()} for s in strings[:5 if tier == 'thorough' else 2]]
     out.append(('checksum-all-candidates', cases, True))
+    # frames whose own check value is a special number (0x0000, 0xFFFF, a zero byte on either side, both bytes equal):
+    # a relation between the bytes of a frame that random draws meet once in 65536 frames. Constructed by running
+    # through the 65536 addresses of a small read request / write-single response per unit id.
+    targets = {0x0000: 2, 0xFFFF: 2, 0x0001: 1, 0x0100: 1, 0x8000: 1, 0x0080: 1, 0x00FF: 1, 0xFF00: 1, 0x0101: 1, 0x7FFF: 1}
+    ltargets = {0x00: 3, 0xFF: 2, 0x01: 1, 0x80: 1, 0x7F: 1, 0x0A: 1, 0x0D: 1, 0x3A: 1}
+    cases = []
+    for uid in ((1, 5, 0x11, 0xF7) if tier == 'thorough' else (1, 5)):
+        for kind, mk, head in (('req:3', lambda a: {'address': a, 'quantity': 1}, lambda a: bytes([uid, 3, a >> 8, a & 0xFF, 0, 1])),
+                               ('rsp:6', lambda a: {'address': a, 'value': 1}, lambda a: bytes([uid, 6, a >> 8, a & 0xFF, 0, 1]))):
+            left, lleft = dict(targets), dict(ltargets)
+            for a in range(0x10000):
+                body = head(a)
+                c = refframe.crc16(body)
+                if left.get(c):
+                    left[c] -= 1
+                    for framing in ('rtu', 'binary'):
+                        cases.append({'t': 'msg', 'framing': framing, 'kind': kind, 'fields': mk(a), 'uid': uid, 'tid': 0x0102, 'pid': 0})
+                    cases.append({'t': 'sum', 'data': body.hex(), 'probe': 0})
+                l = refframe.lrc(body)
+                if lleft.get(l):
+                    lleft[l] -= 1
+                    cases.append({'t': 'msg', 'framing': 'ascii', 'kind': kind, 'fields': mk(a), 'uid': uid, 'tid': 0x0102, 'pid': 0})
+                    cases.append({'t': 'sum', 'data': body.hex(), 'probe': 0})
+    out.append(('special-check-values', cases, True))
     return out
 
 
